@@ -494,7 +494,8 @@ def compare_typed(out, rec, exp, got_outcome, via):
             out.fail('C20/data/empty-typed-value/err:FOTY0012',
                      '%s %s text=%r tags=%s type=%s: typed value is the empty sequence, fn:data raised FOTY0012' % (
                          via, rec.path, rec.text, rec.tags, rec.tdesc))
-            return 'bad'
+            # the typed value itself is not wrong (fn:data is): the kind tests of this node stay decidable
+            return 'data-raises'
         if rec.union_derived_member:
             out.fail('C20/typed-value/union/derived-member-skipped', '%s %s text=%r type=%s -> %r' % (
                 via, rec.path, rec.text, rec.tdesc, got_outcome))
@@ -1092,7 +1093,9 @@ def check_case(kind, case):
             status = statuses[i] = 'bad'
         kind_tests(out, eng, T, rec, status)
         var = T.variety(T.simple_of(rec.t))
-        if status == 'ok' and not rec.nilled:
+        if st2 == 'data-raises':
+            out.dim('arith_masked', 'fn:data-raises-on-empty-typed-value')
+        elif status == 'ok' and not rec.nilled:
             if len(exp) == 1 and var == 'atomic':
                 good[i] = exp[0]
                 arithmetic(out, eng, T, rec, exp)
